@@ -63,6 +63,19 @@ func (g *G) wildLeaf() *m.E {
 			}
 			return m.ENum(float64(g.intn("r", 0, 50)))
 		}
+		if g.intn("wbigrange", 0, 5) == 0 {
+			// short ranges far from zero: at and above 2^53 adding 1 no longer
+			// changes a float64
+			base := pickS(g, "wbase", []float64{9007199254740992, 9007199254740990, 1152921504606846976, 1e18, 9223372036854775808, 4294967296, 16777216})
+			lo, hi := m.ENum(base+float64(g.intn("wlo", 0, 4))), m.ENum(base+float64(g.intn("whi", 0, 2048)))
+			if g.flip("wbigneg") {
+				return m.EBin("..", m.EUn("-", hi), m.EUn("-", lo))
+			}
+			if g.flip("wbigdesc") {
+				return m.EBin("..", hi, lo)
+			}
+			return m.EBin("..", lo, hi)
+		}
 		return m.EBin("..", end(), end())
 	case 10:
 		return m.EArr()
